@@ -13,6 +13,10 @@ import (
 func replay(r *ev.Run) {
 	var c replayT
 	r.LoadReplay(&c)
+	if c.Flock != nil {
+		replayFlock(r, c.Flock)
+		r.Finish()
+	}
 	if c.Ring != nil {
 		st := &ringStats{}
 		fmt.Printf("replay (v2 key ring API): history %v, operation %s\n", c.Ring.History, c.Ring.Op)
